@@ -41,6 +41,79 @@ impl<V, A: Ord> MVReg<V, A> {
     }
 }
 
+/// equality of stored writes: same context, equal value
+pub open spec fn teq<V: PartialEq, A: Ord>(x: (VClock<A>, V), y: (VClock<A>, V)) -> bool { x.0@ == y.0@ && x.1.eq_spec(&y.1) }
+pub open spec fn teq_to<V: PartialEq, A: Ord>(y: (VClock<A>, V)) -> spec_fn((VClock<A>, V)) -> bool { |x: (VClock<A>, V)| teq(x, y) }
+pub open spec fn has_match<V: PartialEq, A: Ord>(o: Seq<(VClock<A>, V)>, x: (VClock<A>, V)) -> bool {
+    exists|j: int| 0 <= j < o.len() && teq(#[trigger] o[j], x)
+}
+pub open spec fn matched_upto<V: PartialEq, A: Ord>(s: Seq<(VClock<A>, V)>, o: Seq<(VClock<A>, V)>, n: int) -> bool {
+    forall|i: int| 0 <= i < n && i < s.len() ==> has_match(o, #[trigger] s[i])
+}
+/// C20: two registers are `==` iff they hold the same set of writes (order is irrelevant)
+pub open spec fn mv_eq<V: PartialEq, A: Ord>(s: Seq<(VClock<A>, V)>, o: Seq<(VClock<A>, V)>) -> bool {
+    matched_upto(s, o, s.len() as int) && matched_upto(o, s, o.len() as int)
+}
+/// a filter-count of 0 / >0 against `teq_to(x)` decides has_match
+pub proof fn lemma_count_match<V: PartialEq, A: Ord>(o: Seq<(VClock<A>, V)>, x: (VClock<A>, V))
+    ensures (o.filter(teq_to(x)).len() == 0) <==> !has_match(o, x),
+{
+    lemma_filter_len0(o, teq_to(x));
+    if has_match(o, x) { let j = choose|j: int| 0 <= j < o.len() && teq(#[trigger] o[j], x); assert(teq_to(x)(o[j])); }
+    if o.filter(teq_to(x)).len() != 0 { let j = choose|j: int| 0 <= j < o.len() && teq_to(x)(#[trigger] o[j]); assert(teq(o[j], x)); }
+}
+
+impl<V: PartialEq, A: Ord> PartialEqSpecImpl for MVReg<V, A> {
+    open spec fn obeys_eq_spec() -> bool { actor_ok::<A>() && V::obeys_eq_spec() }
+    open spec fn eq_spec(&self, other: &Self) -> bool { mv_eq(self.vs(), other.vs()) }
+}
+
+impl<V: PartialEq, A: Ord> PartialEq for MVReg<V, A> {
+//@extract fn src/mvreg.rs "PartialEq for MVReg" eq
+    fn eq(&self, other: &Self) -> bool {
+        //@ let ghost ok = actor_ok::<A>() && V::obeys_eq_spec();
+        //@ let ghost sv = self.vals@;
+        //@ let ghost ov = other.vals@;
+        for dot in /*@ it: @*/ self.vals.iter()
+        //@ invariant
+        //@     sv == self.vals@, ov == other.vals@, ok == (actor_ok::<A>() && V::obeys_eq_spec()),
+        //@     it.seq().len() == sv.len(), forall|i: int| 0 <= i < sv.len() ==> *(#[trigger] it.seq()[i]) == sv[i],
+        //@     ok ==> matched_upto(sv, ov, it.index@),
+        {
+            //@ proof { assert(*dot == sv[it.index@]); lemma_count_match(ov, *dot); }
+            let num_found = /*@ shim_vec_iter_filter_count_if(& @*/ other.vals /*@<*/ .iter().filter( /*@>*/ /*@ , Ghost(ok), Ghost(teq_to(*dot)), @*/ |d| /*@ -> (b: bool) ensures ok ==> b == teq(**d, *dot) { @*/ d == &dot /*@ } @*/ ) /*@<*/ .count() /*@>*/ ;
+
+            if num_found == 0 {
+                //@ proof { if ok { assert(!has_match(ov, sv[it.index@])); assert(!matched_upto(sv, ov, sv.len() as int)); } }
+                return false;
+            }
+            // sanity check
+            /*@<*/ assert_eq!(num_found, 1); /*@>*/
+            //@ proof { if ok { assert(has_match(ov, sv[it.index@])); assert(matched_upto(sv, ov, it.index@ + 1)); } }
+        }
+        for dot in /*@ it: @*/ other.vals.iter()
+        //@ invariant
+        //@     sv == self.vals@, ov == other.vals@, ok == (actor_ok::<A>() && V::obeys_eq_spec()),
+        //@     it.seq().len() == ov.len(), forall|i: int| 0 <= i < ov.len() ==> *(#[trigger] it.seq()[i]) == ov[i],
+        //@     ok ==> matched_upto(sv, ov, sv.len() as int),
+        //@     ok ==> matched_upto(ov, sv, it.index@),
+        {
+            //@ proof { assert(*dot == ov[it.index@]); lemma_count_match(sv, *dot); }
+            let num_found = /*@ shim_vec_iter_filter_count_if(& @*/ self.vals /*@<*/ .iter().filter( /*@>*/ /*@ , Ghost(ok), Ghost(teq_to(*dot)), @*/ |d| /*@ -> (b: bool) ensures ok ==> b == teq(**d, *dot) { @*/ d == &dot /*@ } @*/ ) /*@<*/ .count() /*@>*/ ;
+
+            if num_found == 0 {
+                //@ proof { if ok { assert(!has_match(sv, ov[it.index@])); assert(!matched_upto(ov, sv, ov.len() as int)); } }
+                return false;
+            }
+            // sanity check
+            /*@<*/ assert_eq!(num_found, 1); /*@>*/
+            //@ proof { if ok { assert(has_match(sv, ov[it.index@])); assert(matched_upto(ov, sv, it.index@ + 1)); } }
+        }
+        true
+    }
+//@end
+}
+
 impl<V, A: Ord> Default for MVReg<V, A> {
 //@extract fn src/mvreg.rs "Default for MVReg" default
     fn default() -> /*@ (r: @*/ Self /*@ ) @*/
